@@ -58,6 +58,7 @@ pub fn run_c03(p: &mut Prng, _t: Tier, i: usize, sink: &mut Sink) {
     let mut w = World::new();
     if i == 0 {
         annex_sign_session(&mut w);
+        openssl_signatures(&mut w);
     }
     let nsess = p.range(1, 4);
     let mut queues = vec![];
@@ -78,6 +79,23 @@ pub fn run_c03(p: &mut Prng, _t: Tier, i: usize, sink: &mut Sink) {
         w.samples.push(json!({"schedule": w.history.iter().take(12).cloned().collect::<Vec<_>>() }));
     }
     sink.done(w);
+}
+
+/// Signatures made by an independent signer (OpenSSL, committed corpus): default ID and explicit ID.
+fn openssl_signatures(w: &mut World) {
+    let c = crate::gen_c19::corpus();
+    for (i, it) in c["items"].as_array().unwrap().iter().enumerate() {
+        let s = |x: &str| format!("ossl{i}.{x}");
+        let kd = c["keys"].as_array().unwrap().iter().find(|k| k["name"] == it["key"]).unwrap();
+        w.exec(set(&s("pk"), &hex::decode(kd["point"].as_str().unwrap()).unwrap()));
+        w.exec(set(&s("msg"), &hex::decode(it["msg"].as_str().unwrap()).unwrap()));
+        w.exec(set(&s("sig"), &hex::decode(it["sig"].as_str().unwrap()).unwrap()));
+        let r = w.exec(json!({"op":"sm2.verify","impl":"lib","pk":s("pk"),"id":Value::Null,"msg":s("msg"),"sig":s("sig")}));
+        w.bump(if r["class"] == "Ok" { "probe.corpus.openssl-signature-accepted" } else { "probe.corpus.openssl-signature-rejected" });
+        w.exec(set(&s("id"), it["id"].as_str().unwrap().as_bytes()));
+        w.exec(set(&s("sig"), &hex::decode(it["sig_id"].as_str().unwrap()).unwrap()));
+        w.exec(json!({"op":"sm2.verify","impl":"lib","pk":s("pk"),"id":s("id"),"msg":s("msg"),"sig":s("sig")}));
+    }
 }
 
 /// The GM/T 0003.5 Annex A signature example as a scripted session (nonce through the seam).
